@@ -23,6 +23,12 @@ def run(tier, seed):
     nlex = {"quick": 80, "thorough": 800}[tier]
 
     def lexspec(r):
+        if r.random() < 0.08:
+            # a large terminal on its own (the lazy DFA needs more than its default cache
+            # capacity); kept apart from other regexes, whose build-time ambiguity check
+            # against such a terminal takes minutes
+            big = lexgen.Entry("re", r.choice(["a{30000}", "[a-c]{9000}", "(ab|c){6000}", "a{100000}", "a{60000}"]))
+            return lexgen.LexSpec([big, lexgen.Entry("lit", r.choice(["x", "+", "yy"]))], 0, 0)
         s = lexgen.gen_spec(r, nent=(1, 5), match_p=0.6, exotic=0.15, lit_p=0.3, nullable=0.6)
         if r.random() < 0.4:
             e = lexgen.Entry("re", r.choice(["a*", "(ab)?", "", "[0-9]*", "\\s*", "(a|b*)", "x{0,2}", "(?:)"]))
